@@ -146,7 +146,8 @@ def check(tier, seed):
         for bits in K.BITS:
             for signed in (False, True):
                 for v in K.boundary_values(bits, signed):
-                    for g, i in ((6, 0x2E), (0x31, 1), (255, 4095)):
+                    pubs = sorted(set(((k >> 16) & 255, k & 4095) for k in kt['consts'].values() if [0, 1, 8, 16, 32, 64, 0, 0][(k >> 28) & 7] == bits))
+                    for g, i in [(6, 0x2E), (0x31, 1), (255, 4095)] + pubs:
                         if v is None and bits != 1:
                             continue
                         it = CfgKeyData('data0', g, i, bits, v, signed)
@@ -155,6 +156,37 @@ def check(tier, seed):
                         if impl != 'ok':
                             res.violation('str() of a configuration item raised or lost its name', {'property': 'C19', 'input': desc, 'result': impl}, f'c19-cfg|{bits}|{signed}')
                         cases.append(Case('str-cfgitem', 'rendercfg ' + K.item_token(g, i, bits, signed, v), impl, desc, kind='cfgitem'))
+        for k in sorted(kt['consts'].values()):
+            bits = [0, 1, 8, 16, 32, 64, 0, 0][(k >> 28) & 7]
+            if bits == 8:
+                for v in range(256):
+                    it = CfgKeyData.from_key(k, v)
+                    it.name = 'data0'
+                    impl = C.guarded(lambda: 'ok' if 'data0' in str(it) else 'name-missing')
+                    desc = {'cfg_item': hex(k), 'value': v}
+                    if impl != 'ok':
+                        res.violation('str() of a configuration item raised or lost its name', {'property': 'C19', 'input': desc, 'result': impl}, f'c19-cfgv|{k}')
+                    cases.append(Case('str-cfgitem', 'rendercfg ' + K.impl_item_token(it), impl, desc, kind='cfgitem-values'))
+        # frames with many fields (every counted message with its largest receivable block count; VALGET with 64 pairs)
+        for name, e in sorted(mt.items()):
+            if e['kind'] != 'counted':
+                continue
+            hdr = sum(F.tok_width(t) for _, t in e['hdr'])
+            blk = sum(F.tok_width(t) for _, t in e['blk'])
+            c = min(e['maxc'] if e['maxc'] is not None else 255, (1000 - hdr) // blk)
+            hp = bytearray(F.rand_payload_for(rng, e['hdr']))
+            hp[sum(F.tok_width(t) for n_, t in e['hdr'][:[n_ for n_, _ in e['hdr']].index(e['count'])])] = c
+            pay = bytes(hp) + F.rand_payload_for(rng, [(f'{n_}_{i}', t) for i in range(c) for n_, t in e['blk']])
+            fr = e['cls'].construct(bytearray(pay))
+            cached = {it.name: it.value for it in fr.f._fields.values() if isinstance(it.value, int)}
+            add(fr, cached, {'message': name, 'state': 'decoded', 'blocks': c, 'payload_hex': C.hexs(pay)[:200]}, name + '/max-blocks')
+        from ubxlib.ubx_cfg_valget import UbxCfgValGet
+        body = b''.join((0x20110021 + j).to_bytes(4, 'little') + bytes([j]) for j in range(64))
+        vg = UbxCfgValGet.construct(bytearray(bytes(4) + body))
+        s_ = C.guarded(str, vg)
+        missing = [f'data{j}' for j in range(64) if f'data{j}:' not in s_]
+        if s_.startswith('!') or missing or vg.NAME not in s_:
+            res.violation('str() of a VALGET response with 64 pairs raised or lost item names', {'property': 'C19', 'input': {'message': 'UbxCfgValGet', 'pairs': 64}, 'result': s_[:100], 'missing': missing[:5]}, 'c19-valget64')
         res.compare(cases)
         res.oblige('correspondence str() vs render model (Tie A)', not res.disagreements)
         # ---- logging differential (implementation only)
